@@ -267,13 +267,13 @@ class FileStoreRequestBase:
 
     def common_packet_len(self) -> int:
         # 2 bytes TLV header, 1 byte action code and status code, first file name LV length
-        expected_len = 3 + len(self.first_file_name) + 1
+        expected_len = 3 + len(self.first_file_name.encode()) + 1
         if self.action_code in [
             FilestoreActionCode.REPLACE_FILE_SNP,
             FilestoreActionCode.RENAME_FILE_SNP,
             FilestoreActionCode.APPEND_FILE_SNP,
         ]:
-            expected_len += len(self.second_file_name) + 1
+            expected_len += len(self.second_file_name.encode()) + 1
         return expected_len
 
     @staticmethod
